@@ -19,6 +19,7 @@ EXPLANATION = (
     "equal up to the renaming observed<->simulated; D5 the log-rates are numpy.log of the (scaled) rates with no "
     "where=/out=/clip/nan_to_num/masking in between (the structural reason a zero-rate bin holding an event gives "
     "-inf and nothing else does); plus the duplicate-safe accumulation of the gridded counts the tests consume "
+    "D5.double neither the forecast container nor the kernels convert rates / counts to a narrower numeric type; shared C11-D1/D4: the rates are read through a fresh scaled view and its marginals; shared C03-D6: the observed counts are recomputed from the current events. "
     "(shared with C03). NOT decided: numerical equality with sum log pmf (loggamma, log, summation order).")
 CLAUSES = {'D1': 'kernel terms and call-site arguments', 'D2': 'marginals and flags per test', 'D3': 'normalisation',
            'D4': 'observed/simulated isomorphism', 'D5': 'no laundering of log-rates'}
